@@ -47,7 +47,7 @@ def C06():
                    "rtf/syntax.py::RTFSyntaxGenerator.generate_page_settings": R.replay_page_geometry,
                    "encoding/renderer.py::PageRenderer._should_show": R.replay_should_show,
                    "pagination/processor.py::PageFeatureProcessor._should_show_element": R.replay_should_show,
-                   "pagination/strategies/*": D("header_repeat"), "encoding/renderer.py::PageRenderer.render": D("placement"), "encoding/unified_encoder.py::": D("placement"), "services/encoding_service.py::": D("placement"), "attributes.py::": D("placement")},
+                   "pagination/strategies/*": D("header_repeat"), "encoding/renderer.py::PageRenderer.render": D("placement"), "encoding/unified_encoder.py::": D("placement"), "services/encoding_service.py::": D("placement"), "attributes.py::": D("placement"), "encoding/unified_encoder.py::UnifiedRTFEncoder._encode_figure_only": R.replay_figure_document},
         design_ref="4/C06, A15-A16",
     )
 
@@ -145,7 +145,7 @@ def C16():
         assumptions=["FigureOnly uses rtf_read_figure through its contract (unit ReadFigure: one (bytes, format) per path, in order); open(path,'rb').read() "
                      "and Path.exists are assumed file-system contracts; the appended parts of _encode_figure_only are observed through a handler on "
                      "parts.append (the function only appends)"],
-        replayers={"services/figure_service.py::RTFFigureService": R.replay_figures},
+        replayers={"services/figure_service.py::RTFFigureService": R.replay_figures, "encoding/unified_encoder.py::UnifiedRTFEncoder._encode_figure_only": R.replay_figure_document, "figure.py::": R.replay_figure_document},
         design_ref="4/C16, A19",
     )
 
@@ -341,7 +341,7 @@ def C02():
                      "(KEPT enumeration); multi-section order: unit MultiSection; calculate_row_metadata is used through AssignPages' ensures"],
         replayers={"pagination/core.py::PageBreakCalculator._assign_pages": replay_assign_pages,
                    "encoding/renderer.py::PageRenderer._render_body": D("cells"), "attributes.py::TableAttributes._encode": D("cells"),
-                   "encoding/unified_encoder.py::": D("cells")},
+                   "encoding/unified_encoder.py::": D("cells"), "pagination/strategies/": D("cells")},
         design_ref="4/C02")
 
 
